@@ -7,8 +7,12 @@ N == Len(Traces)
 T == Traces[tid]
 E == T[l]
 TraceInit == tid \in 1..N /\ l = 2
-TraceNext == /\ l <= Len(T) /\ E.ev = "OBS" /\ l' = l + 1 /\ UNCHANGED tid
-             /\ (E.negotiated => SemanticsMatch(T[1].tokens, E))
+\* OBS: a handshake both sides were configured for.  SEL: the PEER selected the suite in a ServerHello of
+\* version E.ver although the client had offered it for other versions: the client may go on only if the suite
+\* is defined for that version ("a suite is never negotiated in a protocol version that does not define it")
+TraceNext == /\ l <= Len(T) /\ l' = l + 1 /\ UNCHANGED tid
+             /\ \/ E.ev = "OBS" /\ (E.negotiated => SemanticsMatch(T[1].tokens, E))
+                \/ E.ev = "SEL" /\ (E.accepted => DefinedAt(T[1].tokens, E.ver))
 Mark == IF l - 1 > TLCGet(tid) THEN TLCSet(tid, l - 1) ELSE TRUE
 ASSUME \A i \in 1..N : TLCSet(i, 0)
 Rejected == { i \in 1..N : TLCGet(i) # Len(Traces[i]) }
